@@ -1,6 +1,7 @@
 import CelmaVerif.Lemmas.GroupsNormal
 import CelmaVerif.Lemmas.GroupsPending
 import CelmaVerif.Lemmas.GroupsGlobals
+import CelmaVerif.Lemmas.RulesBase
 /-
   A member of an argument group as a *view* of the merged configuration (the argument indices and
   handler-constraint indices it owns), the well-formedness of a partition into views, and the
@@ -73,6 +74,9 @@ structure GroupWF (cfg : Cfg) (vs : List View) : Prop where
   /-- the arguments of a handler constraint live in the member that owns the constraint -/
   w3 : ∀ v ∈ vs, ∀ g ∈ v.ig, ∀ b, b ∉ v.ia → ∀ gd db, cfg.globals[g]? = some gd → cfg.args[b]? = some db →
         isConstraintArgument gd.keys db.key = false
+  /-- the argument lists of the value constraints differ / disjoint are as `validValueArguments`
+      leaves them, over a type the constraint can compare (`Cfg.ValueArgsOk`, as in `Cfg.WellFormed`) -/
+  vargs : cfg.ValueArgsOk
 
 theorem apart_unique {vs : List View} (h : vs.Pairwise (fun v w => ∀ a ∈ v.ia, a ∉ w.ia)) {v w : View}
     (hv : v ∈ vs) (hw : w ∈ vs) {i : Nat} (hiv : i ∈ v.ia) (hiw : i ∈ w.ia) : v = w := by
